@@ -179,6 +179,14 @@ where
 		t.num_inputs = lock_inputs.len();
 		for id in lock_inputs {
 			let mut coin = batch.get(&id.0, &id.1).unwrap();
+			// the inputs were selected when the transaction was initiated; refuse to
+			// reserve them if another transaction has taken them in the meantime
+			if coin.status == OutputStatus::Locked || coin.status == OutputStatus::Spent {
+				return Err(Error::GenericError(format!(
+					"Output {} selected for this transaction is already {}",
+					coin.key_id, coin.status
+				)));
+			}
 			coin.tx_log_entry = Some(log_id);
 			amount_debited += coin.value;
 			batch.lock_output(&mut coin)?;
